@@ -112,6 +112,7 @@ def main():
     ap.add_argument("--jobs", type=int, default=16)
     ap.add_argument("--out", default="/tmp/mutation_survey.json")
     ap.add_argument("--max-per-func", type=int, default=400)
+    ap.add_argument("--all-checks", action="store_true", help="run every selected check on every mutant (not only those that list the function as analysed)")
     a = ap.parse_args()
     props = a.props.split(",")
     SOURCES = load_sources("/repo")
@@ -159,7 +160,7 @@ def main():
                 compile(new_src, fi.module, "exec")
             except Exception:  # noqa: BLE001
                 continue
-            jobs.append((fi.module, q, desc, new_src, ps, base))
+            jobs.append((fi.module, q, desc, new_src, (props if a.all_checks else ps), base))
             cnt += 1
             if cnt >= a.max_per_func:
                 break
